@@ -91,16 +91,16 @@ func specRel(opts []layers.TCPOption, a int, o int, isn uint32) uint32 {
 
 //@ func (*sackDriver).getRTTFromRelSeq
 //@ inline
-//@ safety C09
+//@ safety C09 C14
 //@ requires[pre.inv]      s != nil && specInv(s)
 //@ requires[pre.past]     forall(k, 0, len(s.sendTimes), s.sendTimes[k] <= now())
 //@ ensures[C01.rtt.ok]    (ret1 == nil) == (specInRange(s, relSeq) && s.sendTimes[relSeq] != 0)
 //@ ensures[C05.rtt.val]   ret1 == nil ==> ret0 >= 0 && ret0 == now() - s.sendTimes[relSeq]
 //@ ensures[C09.rtt.class] ret1 != nil ==> noRepoErr(ret1)
-//@ modifies ghost clock
+//@ modifies s.mu, ghost clock
 
 //@ func (*sackDriver).handleProbeLayers
-//@ safety C09
+//@ safety C09 C14
 //@ requires[pre.nonnil]     s != nil && parser != nil
 //@ requires[pre.parsed]     packets.SpecParsed(parser)
 //@ requires[pre.inv]        specInv(s)
@@ -118,7 +118,7 @@ func specRel(opts []layers.TCPOption, a int, o int, isn uint32) uint32 {
 //@ ensures[C04.dest]        ret0 != nil ==> (ret0.IsDest == (specIsTCP(parser) || packets.SpecOuterSrc(parser) == s.params.Target.Addr()))
 //@ ensures[C05.rtt]         ret0 != nil ==> ret0.RTT >= 0 && ret0.RTT == now() - s.sendTimes[ret0.TTL]
 //@ ensures[C01.fresh]       ret0 != nil ==> fresh(ret0)
-//@ modifies ghost clock
+//@ modifies s.mu, ghost clock
 
 //@ func (*sackDriver).Close
 //@ safety C10
@@ -188,7 +188,7 @@ func specRel(opts []layers.TCPOption, a int, o int, isn uint32) uint32 {
 //@ modifies *, ghost isOpen, ghost closeN, ghost clock, ghost sendN, ghost sendLog, ghost sendClock, ghost tcpDialed, ghost ioFail
 
 //@ func (*sackDriver).SendProbe
-//@ safety C06 C05
+//@ safety C06 C05 C14
 //@ requires[pre.nonnil]   s != nil && s.sink != nil
 //@ requires[C10.send.open]  selb(isOpen, ref(s.sink))
 //@ requires[pre.len]      s.state != nil ==> len(s.sendTimes) == int(s.params.ParallelParams.MaxTTL)+1
@@ -203,7 +203,7 @@ func specRel(opts []layers.TCPOption, a int, o int, isn uint32) uint32 {
 //@ ensures[C06.wire.opts] ret0 == nil ==> ghost(ser.fix) && ghost(ser.csum) && ghost(ser.pseudo)
 //@ ensures[C10.send.wrap] ret0 != nil ==> noRepoErr(ret0)
 //@ lemma[C06.inject]      forall(b, 0, 4294967296, forall(a, 0, 256, forall(c, 0, 256, a != c ==> (b + a) % 4294967296 != (b + c) % 4294967296)))
-//@ modifies elems(s.sendTimes), ghost clock, ghost wrN, ghost wrClock
+//@ modifies s.mu, elems(s.sendTimes), ghost clock, ghost wrN, ghost wrClock
 
 //@ func newSackDriver
 //@ safety C19
@@ -211,7 +211,7 @@ func specRel(opts []layers.TCPOption, a int, o int, isn uint32) uint32 {
 //@ ensures[C19.sack.zero]   ret1 == nil ==> forall(k, 0, len(ret0.sendTimes), ret0.sendTimes[k] == 0)
 
 //@ func (*sackDriver).ReceiveProbe
-//@ safety C09
+//@ safety C09 C14
 //@ requires[pre.nonnil]     s != nil && s.source != nil && s.parser != nil && s.parser.parserv4 != nil && s.parser.parserv6 != nil
 //@ requires[C10.recv.open]  selb(isOpen, ref(s.source))
 //@ requires[pre.len]        s.state != nil ==> len(s.sendTimes) == int(s.params.ParallelParams.MaxTTL)+1
@@ -221,7 +221,7 @@ func specRel(opts []layers.TCPOption, a int, o int, isn uint32) uint32 {
 //@ ensures[C09.recv.io]     ioFail == old(ioFail) || ret1 != nil
 //@ ensures[C01.recv.fresh]  ret0 != nil ==> fresh(ret0)
 //@ ensures[C09.recv.state]  forall(k, 0, len(s.sendTimes), s.sendTimes[k] == old(s.sendTimes[k]))
-//@ modifies packets.FrameParser.IP4, packets.FrameParser.IP6, packets.FrameParser.TCP, packets.FrameParser.ICMP4, packets.FrameParser.ICMP6, packets.FrameParser.Payload, packets.FrameParser.Layers, gopacket.DecodingLayerParser, elems(s.buffer), ghost clock, ghost ioFail
+//@ modifies s.mu, packets.FrameParser.IP4, packets.FrameParser.IP6, packets.FrameParser.TCP, packets.FrameParser.ICMP4, packets.FrameParser.ICMP6, packets.FrameParser.Payload, packets.FrameParser.Layers, gopacket.DecodingLayerParser, elems(s.buffer), ghost clock, ghost ioFail
 
 // C11 isolation: a selective ACK genuine for two SACK runs forces the same 4-tuple (one kernel connection each, so the
 // local port differs between runs); a time-exceeded genuine for both (relaxed mode) forces the two initial sequence
